@@ -615,6 +615,11 @@ func (fc *FnCtx) unop(x *ssa.UnOp) {
 		if gl, ok := x.X.(*ssa.Global); ok && g.ld.nonNilGlobal(gl) && g.sortOf(x.Type()) == "Iface" {
 			g.note("assumed: package variable " + shortPkg(gl.String()) + " keeps the non-nil error it is initialised with (no function of the loaded packages assigns it)")
 			fc.assume(fmt.Sprintf("(not (= (itag %s) 0))", fc.vals[x].t), "non-nil package error")
+		} else if gl, ok := x.X.(*ssa.Global); ok && g.ld.nonNilGlobal(gl) {
+			if _, isPtr := x.Type().Underlying().(*types.Pointer); isPtr {
+				g.note("assumed: package variable " + shortPkg(gl.String()) + " keeps the object it is initialised with (no function of the loaded packages assigns it)")
+				fc.assume(fmt.Sprintf("(not (= %s 0))", fc.vals[x].t), "non-nil package object")
+			}
 		}
 		// closure identity through cells is lost
 	case token.ARROW:
